@@ -662,7 +662,7 @@ class Interp(Ops, Builtins, DynOps):
         gens = e.generators
         cf = Frame(fr.module, fr.fi, parent=fr)
         first = self.ev(gens[0].iter, fr)
-        if first.kind == "slist" or (first.kind == "opaque" and first.tag == "symiter"):
+        if first.kind in ("slist", "dyn") or (first.kind == "opaque" and first.tag == "symiter"):
             if what != "list" or len(gens) != 1:
                 raise EngineError(f"comprehension over SMT list: unsupported shape (line {e.lineno})")
             return self.slist_comprehension(e, first, cf)
@@ -698,6 +698,53 @@ class Interp(Ops, Builtins, DynOps):
             return self.ctx.new_cell("dict", (out_k, out_v))
         return self.ctx.new_cell("list", out_v)
 
+    def quantified_comp(self, comp, fr, is_any):
+        """any([...]) / all([...]) over a comprehension whose generators range over data of unknown size: the quantified formula itself
+        (exists / forall over the indices), no list is built.  Returns None when every generator is concrete (ordinary evaluation)."""
+        gens = comp.generators
+        cf = Frame(fr.module, fr.fi, parent=fr)
+        any_sym = [False]
+
+        def rec(gi):
+            if gi == len(gens):
+                return z3.simplify(self.truth(self.ev(comp.elt, cf), comp.elt))
+            g = gens[gi]
+            it = self.ev(g.iter, cf)
+            sym = None
+            if it.kind in ("slist", "dyn") or (it.kind == "opaque" and it.tag == "symiter"):
+                sym = self.symbolic_iter(it, g.iter)
+            if sym is None:
+                parts = []
+                for x in self.iter_concrete(it, g.iter):
+                    self.assign(g.target, x, cf)
+                    conds = [z3.simplify(self.truth(self.ev(c, cf), c)) for c in g.ifs]
+                    inner = rec(gi + 1)
+                    parts.append(z3.And(*conds, inner) if is_any else z3.Implies(z3.And(*conds), inner) if conds else inner)
+                if not parts:
+                    return z3.BoolVal(not is_any)
+                return z3.Or(*parts) if is_any else z3.And(*parts)
+            any_sym[0] = True
+            n, at, _ = sym
+            k = self.ctx.bound("k_q")
+            rng = z3.And(0 <= k, k < n)
+            self.ctx.push_param(k, rng)
+            self.ctx.no_branch += 1
+            try:
+                self.assign(g.target, at(k), cf)
+                conds = [z3.simplify(self.truth(self.ev(c, cf), c)) for c in g.ifs]
+                inner = rec(gi + 1)
+            finally:
+                self.ctx.no_branch -= 1
+                self.ctx.pop_param()
+            if is_any:
+                return z3.Exists([k], z3.And(rng, *conds, inner))
+            return z3.ForAll([k], z3.Implies(z3.And(rng, *conds), inner))
+        # only when the first generator ranges over data of unknown size (its iterable is a pure expression in this code base)
+        first = self.ev(gens[0].iter, cf)
+        if not (first.kind in ("slist", "dyn") or (first.kind == "opaque" and first.tag == "symiter")):
+            return None
+        return VBool(rec(0))
+
     def iter_concrete(self, it, node):
         """python list of the elements of a concrete-spine iterable"""
         k = it.kind
@@ -727,6 +774,11 @@ class Interp(Ops, Builtins, DynOps):
             return NONE
         if isinstance(e.func, ast.Name) and e.func.id == "super" and not e.args:
             return self.make_super(fr, e)
+        if (isinstance(e.func, ast.Name) and e.func.id in ("any", "all") and len(e.args) == 1 and not e.keywords
+                and isinstance(e.args[0], (ast.ListComp, ast.GeneratorExp)) and fr.lookup(e.func.id) is None):
+            q = self.quantified_comp(e.args[0], fr, e.func.id == "any")
+            if q is not None:
+                return q
         f = self.ev(e.func, fr)
         if f.kind == "ext" and f.dotted.startswith("spec."):
             return self.call_spec(f.dotted[5:], e, fr)
@@ -1229,6 +1281,8 @@ class Interp(Ops, Builtins, DynOps):
             return (n, lambda k: self.ctx.sitem(it, k), [it])
         if it.kind == "opaque" and it.tag == "symiter":
             return it.data["sym"]
+        if it.kind == "dyn":
+            return self.dyn_iter(it, node)
         return None
 
     def loop_ordinal(self, fi, node):
@@ -1576,7 +1630,8 @@ class Interp(Ops, Builtins, DynOps):
                 if not z3.is_false(z3.simplify(cond)):
                     if self.spec:
                         raise EngineError(f"contract of {short} may raise; not usable in a spec expression")
-                    if self.ctx.branch(cond, f"raises.{short}.{exc}@{getattr(node, 'lineno', 0)}"):
+                    # "raises X only when cond": the callee MAY raise X where cond holds, and may also return normally
+                    if self.ctx.decide([("raise", [cond]), ("return", [])], f"raises.{short}.{exc}@{getattr(node, 'lineno', 0)}") == 0:
                         raise PyRaise(VExc(exc), node)
             # the callee may allocate: the set of allocated references grows (ensures may say what became allocated)
             r_ = z3.Int("r!al")
